@@ -1,0 +1,5 @@
+//go:build !verif
+
+package core
+
+// The verification constructors of verif_on.go exist only under the build tag `verif`.
